@@ -8,6 +8,7 @@
     bind <name> <type>                   → ok            (a declaration the model does not cover: its real type, to keep going)
     for ( <name>… ) <expr>               → ok <t1> | <t2> …   (loop targets: iterates + resolve_right_to_left; extends the env)
     here <expr>                          → ok <type>     (an expression in the current env, e.g. a `return` value)
+    lam <lamctx> ( <name>… ) <expr>|-    → ok <t1> | <t2> … [| <body type>]   (lambda parameters from where the lambda stands, then its body)
     infer <env> <expr>                   → ok <short notation> | <error>      (threads the session state)
     pytype <valenv> <expr>               → ok <short notation of typeOf (eval …)> | <error>
 
@@ -21,10 +22,13 @@
            ( listcomp proj ( x… ) src cond ) ( dictcomp k v ( x… ) src cond )
     value  ( int -3 ) ( float 1.5 ) ( bool true ) ( str <hex> ) none ( list v… ) ( dict k v … ) ( tuple v… )
     valenv ( ( name value ) … )
+    lamctx ( anno T ) ( fn k T… ) ( meth k T… ) ( ret T ) ( imm expr… )      (k = position of the lambda among the arguments; T… = attrs of the
+           function symbol / the signature of the method or constructor, self first)
 -/
 import Tranp.Driver.Common
 import Tranp.Model.Infer
 import Tranp.Model.PyEval
+import Tranp.Model.InferLambda
 
 namespace Tranp.Driver.Infer
 open Tranp Tranp.Infer Tranp.Driver
@@ -221,6 +225,34 @@ def step (st : St) : List String → St × String
       | (.ok t, s) => ({ st with unionTaken := s }, "ok " ++ t.render)
       | (.error er, s) => ({ st with unionTaken := s }, er.toString)
     | none => (st, "bad-op")
+  | ["lam", c, vs, b] =>
+    let ctx : Option LamCtx := match parseAll c with
+      | some (.node [.atom "anno", t]) => (toTy t).map .annoAssign
+      | some (.node [.atom "ret", t]) => (toTy t).map .ret
+      | some (.node (.atom "fn" :: .atom k :: ts)) => (allSome (ts.map toTy)).bind fun l => k.toNat?.map fun n => .argFunction (Tys.ofList l) n
+      | some (.node (.atom "meth" :: .atom k :: ts)) => (allSome (ts.map toTy)).bind fun l => k.toNat?.map fun n => .argMethod (Tys.ofList l) n
+      | some (.node (.atom "imm" :: es)) =>
+        (allSome (es.map toExpr)).bind fun l =>
+          (allSome (l.map fun e => match inferT st.ct st.env e with | .ok t => some t | .error _ => none)).map .immediate
+      | _ => none
+    match ctx, parseAll vs with
+    | some ctx, some (.node names) =>
+      match allSome (names.map fun v => match v with | .atom x => some (s2l x) | _ => none) with
+      | some vars =>
+        match lamEnv ctx vars with
+        | .error er => (st, er.toString)
+        | .ok Γ' =>
+          let ps := Γ'.map fun b => b.2.render
+          if b = "-" then (st, "ok " ++ " | ".intercalate ps)
+          else
+            match parseAll b >>= toExpr with
+            | some body =>
+              match lambdaBody st.ct st.env ctx vars body with
+              | .ok t => (st, "ok " ++ " | ".intercalate (ps ++ [t.render]))
+              | .error er => (st, er.toString)
+            | none => (st, "bad-op")
+      | none => (st, "bad-op")
+    | _, _ => (st, "bad-op")
   | ["for", vs, e] =>
     match parseAll vs, parseAll e >>= toExpr with
     | some (.node names), some ex =>
